@@ -116,7 +116,9 @@ const FILES: [&str; 2] = ["f1", "f2"];
 // 10 = `MIN_INTERNAL_FD`: where a job-control shell keeps its terminal (CLOEXEC) and where the redirection engine saves
 // a target; as the TARGET of `N>&M` it is not accepted (the `bg` rendering could not close a copy of a pipe end there)
 const FDS: [&str; 5] = ["3", "4", "5", "20", "10"];
-const LIMITS: [&str; 3] = ["16", "18", "unlimited"];
+// 4: only ever drawn for the innermost child (nothing of the sweep's own machinery needs a new descriptor there): with
+// descriptors 0-3 in use `open` itself answers EMFILE, and the saving `dup(.., 10, ..)` of the redirection engine too
+const LIMITS: [&str; 4] = ["16", "18", "unlimited", "4"];
 const KINDS: [&str; 6] = ["paren", "subst", "pipeF", "pipeM", "pipeL", "async"];
 const TRACKED_VARS: [&str; 5] = ["va", "vb", "vc", "PWD", "OLDPWD"];
 const TRACKED_FUNS: [&str; 3] = ["F1", "F2", "lf"];
@@ -197,6 +199,9 @@ fn parse_case(text: &str) -> Option<Case> {
                 // `bg` is not for W: it would change `$!`, which the parent is about to `wait` for
                 let noisy = toks[0] == "raise" || toks[0] == "local" || (tag == "W" && toks[0] == "bg");
                 let exits = toks[0] == "exit";
+                if toks[0] == "yield" && tag != "W" {
+                    return None;
+                }
                 match tag {
                     "P" if !exits => c.pro.push(toks),
                     "C" => c.child.push(toks),
@@ -275,6 +280,12 @@ fn render_op(t: &[String]) -> Option<String> {
         // work (the `bg` rendering saves up to five descriptors at 10.. while its redirections are performed, plus the tty)
         ("nofile", 2) if is_in(a(1)?, &LIMITS) => format!("ulimit -S -n {}", t[1]),
         ("exit", 2) if is_in(a(1)?, &["0", "3", "7"]) => format!("exit {}", t[1]),
+        // a scheduling point of the starter between `&` and `wait` (W phase only): a foreground subshell makes the
+        // starter block, so the executor runs the asynchronous child (or the part of it up to its next wait) NOW
+        // instead of at `wait $!`.  It prints nothing: a marker on the shared stdout would land in the middle of a
+        // snapshot the child is printing through a pipeline (seen with `( : ); probe TY`: that is how the different
+        // placements were checked to give different interleavings)
+        ("yield", 1) => "( : )".to_string(),
         _ => return None,
     })
 }
@@ -1517,6 +1528,8 @@ struct Abs {
     errexit: bool,
     /// the soft RLIMIT_NOFILE is below 20
     limited: bool,
+    /// the innermost child lowered its soft RLIMIT_NOFILE to 4: a background job could not even set itself up
+    limit4: bool,
     /// the case has a controlling terminal (`T:1`): descriptor 10 may become the shell's CLOEXEC terminal descriptor
     tty: bool,
     /// defined aliases
@@ -1703,13 +1716,19 @@ fn gen_op(rng: &mut Rng, abs: &mut Abs, fam: usize, phase: char) -> Option<Strin
             }
         }
         15 => {
-            if phase == 'W' || phase == 'M' {
+            if phase == 'W' || phase == 'M' || abs.limit4 {
                 return None;
             }
             "bg".to_string()
         }
         16 => {
-            let l = pick(rng, &LIMITS);
+            let mut l = pick(rng, &LIMITS);
+            if l == "4" && phase != 'C' {
+                l = "16";
+            }
+            if l == "4" {
+                abs.limit4 = true;
+            }
             abs.limited = l != "unlimited";
             format!("nofile {l}")
         }
@@ -2098,6 +2117,87 @@ fn main() {
                     }
                     cases.push(parts.join("; "));
                 }
+            }
+        }
+    }
+    // (1h) MORE THAN ONE SCHEDULE per program with two concurrently living processes (the starter between `&` and `wait`,
+    // and its asynchronous child — which itself may be waiting for subshells of its own): `W:yield` makes the starter
+    // block at a chosen point, so the executor runs the child (or part of it) there instead of at `wait $!`.  Every
+    // program is run under 5 schedules (no yield; before / between / after the starter's own mutators; two yields); the
+    // model's and the Spec's answer do not mention the schedule (only the number of markers), so all five must agree
+    // with it — and `A0` with the control run in which the child does nothing.
+    {
+        let mut nests: Vec<Vec<&str>> = vec![vec!["async"]];
+        for k2 in KINDS.iter() {
+            nests.push(vec!["async", k2]);
+        }
+        if o.thorough() {
+            for (i, k2) in KINDS.iter().enumerate() {
+                for j in 0..3 {
+                    nests.push(vec!["async", k2, KINDS[(i + 2 * j + 1) % nk]]);
+                }
+            }
+        }
+        let reps = if o.thorough() { 4 } else { 1 };
+        for rep in 0..reps {
+            for (n, kinds) in nests.iter().enumerate() {
+                for fam in 0..NFAM {
+                    if !o.thorough() && (fam + n) % 3 != 0 {
+                        continue;
+                    }
+                    let (pf, cf, w1, w2) = (pro_fam(&mut rng), rng.below(NFAM), rng.below(NFAM), rng.below(NFAM));
+                    let base = gen_case(&mut rng, &[pf], kinds, &[fam, cf], &[w1, w2], rep % 2 == 1, false);
+                    let items: Vec<&str> = base.split("; ").collect();
+                    let ws: Vec<usize> = items.iter().enumerate().filter(|(_, it)| it.starts_with("W:")).map(|(i, _)| i).collect();
+                    let first_w = ws.first().copied().unwrap_or(items.len());
+                    let end_w = ws.last().map(|i| i + 1).unwrap_or(items.len());
+                    let mid_w = if ws.len() >= 2 { ws[1] } else { end_w };
+                    let with = |at: &[usize]| -> String {
+                        let mut v: Vec<String> = vec![];
+                        for (i, it) in items.iter().enumerate() {
+                            for a in at {
+                                if *a == i {
+                                    v.push("W:yield".into());
+                                }
+                            }
+                            v.push(it.to_string());
+                        }
+                        for a in at {
+                            if *a == items.len() {
+                                v.push("W:yield".into());
+                            }
+                        }
+                        v.join("; ")
+                    };
+                    cases.push(base.clone());
+                    cases.push(with(&[first_w]));
+                    cases.push(with(&[mid_w]));
+                    cases.push(with(&[end_w]));
+                    cases.push(with(&[first_w, end_w]));
+                }
+            }
+        }
+    }
+    // (1g) EMFILE through the shell: the innermost child lowers its own soft RLIMIT_NOFILE to 4; with descriptors 0-3
+    // in use `open` itself fails (`has_unused_fd`), with the target open the saving `dup(target, 10, ..)` fails, a
+    // target at or above 4 fails in `dup2`; closing, and re-opening the lowest free descriptor, still work.  Whatever
+    // happens, the starter (limit, descriptors, everything) is untouched.
+    for (i, k) in KINDS.iter().enumerate() {
+        let scripts = [
+            "C:nofile 4; C:fdw 3 f1; C:fdr 5",
+            "C:fdw 3 f1; C:nofile 4; C:fdw 3 f2",
+            "C:fdw 3 f1; C:nofile 4; C:fdc 3; C:fdw 3 f2; C:fdd 5 3",
+            "C:nofile 4; C:fdr 3; C:fdd 5 1",
+            "C:fdr 3; C:nofile 4; C:fdw 5 f1",
+            "C:nofile 4; C:fdw 3 f1; C:umask 027; C:cd /d1; C:nofile unlimited; C:fdw 5 f2",
+        ];
+        for (v, sc) in scripts.iter().enumerate() {
+            let k2 = KINDS[(i + v + 2) % nk];
+            let tr = if v % 2 == 0 { "C:trap EXIT c4; " } else { "" };
+            cases.push(format!("K:{k}; {tr}{sc}"));
+            if o.thorough() || (i + v) % 3 == 0 {
+                cases.push(format!("P:trap EXIT c1; P:fdw 4 f2; K:{k2}; K:{k}; {sc}"));
+                cases.push(format!("P:nofile 16; P:fdw 20 f1; K:{k}; K:{k2}; M:set va 1; {tr}{sc}"));
             }
         }
     }
